@@ -63,12 +63,16 @@ def derived_schema(ver):
  <xs:simpleType name="us"><xs:union memberTypes="xs:int xs:string"/></xs:simpleType>
  <xs:simpleType name="twoWords"><xs:restriction base="us"><xs:pattern value="[a-z]+ [a-z]+|[0-9]+"/></xs:restriction></xs:simpleType>
  <xs:simpleType name="lead"><xs:restriction base="us"><xs:pattern value="  [a-z]+|[0-9]+"/></xs:restriction></xs:simpleType>
+ <xs:simpleType name="qnames"><xs:list itemType="xs:QName"/></xs:simpleType>
+ <xs:simpleType name="qn23"><xs:restriction base="qnames"><xs:minLength value="2"/><xs:maxLength value="3"/></xs:restriction></xs:simpleType>
+ <xs:simpleType name="qn2"><xs:restriction base="qn23"><xs:length value="2"/></xs:restriction></xs:simpleType>
+ <xs:simpleType name="tok23"><xs:restriction><xs:simpleType><xs:list itemType="xs:NMTOKEN"/></xs:simpleType><xs:minLength value="2"/><xs:maxLength value="3"/></xs:restriction></xs:simpleType>
  <xs:simpleType name="durs"><xs:list itemType="xs:duration"/></xs:simpleType>
  <xs:simpleType name="stamps"><xs:list itemType="xs:dateTime"/></xs:simpleType>
  <xs:simpleType name="money"><xs:restriction base="xs:decimal"><xs:totalDigits value="4"/><xs:fractionDigits value="2"/></xs:restriction></xs:simpleType>
  <xs:element name="small" type="small"/><xs:element name="smaller" type="smaller"/><xs:element name="word" type="word"/><xs:element name="en" type="en"/>
  <xs:element name="ilist" type="ilist"/><xs:element name="ilist2" type="ilist2"/><xs:element name="u" type="u"/><xs:element name="money" type="money"/>
- <xs:element name="durs" type="durs"/><xs:element name="stamps" type="stamps"/><xs:element name="ien" type="ien"/>
+ <xs:element name="durs" type="durs"/><xs:element name="stamps" type="stamps"/><xs:element name="ien" type="ien"/><xs:element name="qn23" type="qn23"/><xs:element name="qn2" type="qn2"/><xs:element name="tok23" type="tok23"/>
  <xs:element name="twoWords" type="twoWords"/><xs:element name="lead" type="lead"/></xs:schema>''')
 
 
@@ -89,6 +93,10 @@ REF = {
     'word': lambda t: 2 <= len(t) <= 4,
     'en': lambda t: t in ('ab', 'abcd'),
     'ien': lambda t: isint(t) and int(t) in (1, 12),
+    # the length facets of a LIST count its items, whatever the item type (only atomic QName / NOTATION values are exempt from them)
+    'qn23': lambda t: 2 <= len(t.split()) <= 3 and all(re.fullmatch(r'[A-Za-z_][\w.-]*', x) for x in t.split()),
+    'qn2': lambda t: len(t.split()) == 2 and all(re.fullmatch(r'[A-Za-z_][\w.-]*', x) for x in t.split()),
+    'tok23': lambda t: 2 <= len(t.split()) <= 3 and all(re.fullmatch(r'[\w.:-]+', x) for x in t.split()),
     'ilist': lambda t: all(REF['small'](x) for x in t.split(' ')) if t else True,
     'ilist2': lambda t: len(t.split(' ')) == 2 and all(REF['small'](x) for x in t.split(' ')) if t else False,
     'u': lambda t: REF['small'](t) or t in ('true', 'false', '1', '0') or REF['word'](t),
@@ -103,13 +111,13 @@ REF = {
 UNION_DECODE = lambda t: int(t) if REF['small'](t) else (t in ('true', '1')) if t in ('true', 'false', '1', '0') else t
 DVALUES = ['P1Y0M PT60S', 'P13M  P1DT24H', 'PT1.50S', 'P1Y', '2020-01-01T24:00:00 2020-01-01T10:00:00+00:00', '2020-01-01T00:00:00.120', '2020-01-01T00:00:00Z']
 VALUES = ['ab cd', 'ab  cd', ' ab cd', 'ab cd ', '  ab', ' ab', '12', ' 12 ', 'ab', '0', '5', '9', '10', '99', '100', '101', '-1', '+7', '07', 'ab', 'a', 'abc', 'abcd', 'abcde', 'true', 'false', '1', '', '1 2', '1 2 3', '100 0', '101 1', 'x y',
-          '12.34', '1.234', '123.4', '12345', '0.10', '00012.30', '.5', '1e1', 'a b', '9' * 400, '012', '-' + '9' * 330]
+          '12.34', '1.234', '123.4', '12345', '0.10', '00012.30', '.5', '1e1', 'a b', '9' * 400, '012', '-' + '9' * 330, 'a b c d', 'ab cd ef', 'x']
 
 
 def eval_derived(args):
     ver, name, v = args
     s = _S.setdefault(ver, derived_schema(ver))
-    t = v if name not in ('word', 'en', 'ien', 'ilist', 'ilist2', 'u', 'small', 'smaller', 'money', 'durs', 'stamps') else re.sub(r' +', ' ', re.sub(r'[\t\n\r]', ' ', v)).strip(' ')
+    t = v if name not in ('word', 'en', 'ien', 'qn23', 'qn2', 'tok23', 'ilist', 'ilist2', 'u', 'small', 'smaller', 'money', 'durs', 'stamps') else re.sub(r' +', ' ', re.sub(r'[\t\n\r]', ' ', v)).strip(' ')
     exp = REF[name](t)
     doc = f'<{name}>{v}</{name}>'
     try: got = s.is_valid(doc)
